@@ -143,6 +143,8 @@ pub fn cmp_pair<const N: usize, const M: usize>(ctx: &mut Ctx) {
                                 Err(_) => {
                                     let p = take_last_panic();
                                     viol(ctx, N, M, "panic", format!("comparison panicked: {:?} A{:?} B{:?}", p, va, vb));
+                                    let cc = ctx.cur_case.clone();
+                                    ctx.violation("C11", format!("cmp|ncap={}|mcap={}|unexpected_panic", ncls(N), ncls(M)), format!("comparison panicked: {:?}; case={}", p, cc));
                                 }
                             }
                             // B as slices / arrays
